@@ -35,9 +35,12 @@ _FN = random.Random(12345)      # deterministic choice of the requested method f
 
 
 def point(kind, tag="wire", by_name=0, has_q=False, q=(), req=True, fn=None):
+    ret = []
     if fn is None:
-        fn = _FN.choice(["Mark", "Tick"]) if tag == "func" else "Mark"
-    return dict(kind=kind, tag=tag, byName=by_name, hasQ=has_q, q=list(q), req=req, fn=fn)
+        fn = _FN.choice(["Mark", "Tick", "Kind"]) if tag == "func" else "Mark"
+        if fn == "Kind":
+            ret = _FN.choice([[], ["A"], ["B"], ["A", "B"], ["*"], ["A"], ["C"]])
+    return dict(kind=kind, tag=tag, byName=by_name, hasQ=has_q, q=list(q), req=req, fn=fn, ret=ret)
 
 
 def rand_point(rng, nprov, focus):
